@@ -21,6 +21,10 @@ def _small(args):
         out.append(x_conv.observe_conv(fx, np, [pid], ts, td, codes, route, MODES[(k + 3) % 10], MODES[(k + 6) % 10], hist=['inplace', 'view', 'elementwise', 'resign', 'intfmt'][k % 5]))
         # scalars and 2-D shapes
         out.append(x_conv.observe_conv(fx, np, [pid], ts, td, codes[k % len(codes)], route, MODES[(k + 1) % 10], MODES[k % 10], byvalue=(k % 2 == 1)))
+        # one-element arrays keep their shape ((1,), (1, 1)) on every route
+        if route not in ('setitem-elem', 'setitem-slice', 'resize-view'):
+            out.append(x_conv.observe_conv(fx, np, [pid], ts, td, [codes[(k + 1) % len(codes)]], route, MODES[(k + 2) % 10], MODES[(k + 7) % 10],
+                                           shape=[(1,), (1, 1)][k % 2], byvalue=(k % 3 == 0)))
         if len(codes) >= 4 and len(codes) % 2 == 0 and route not in ('setitem-elem', 'setitem-slice', 'resize-view'):
             out.append(x_conv.observe_conv(fx, np, [pid], ts, td, codes, route, MODES[(k + 2) % 10], MODES[(k + 5) % 10],
                                            shape=(2, len(codes) // 2)))
